@@ -333,16 +333,27 @@ def r_new_shell(w, op):
             w.probe("shell_shares_exps_and_coeffs")
         else:
             w.probe("shell_shares_exps")
+    lay = op.get("array_layout", "c")
     if exps is None:
         exps = np.array(op["exps"], dtype=float)
+        if lay == "strided":  # every other element of a longer array, as a slice of a table would be
+            big = np.zeros(2 * exps.size)
+            big[::2] = exps
+            exps = big[::2]
     if coeffs is None:
         K = exps.shape[0]
         rows = [op["coeffs"][i % len(op["coeffs"])] for i in range(K)]
         # distinct rows when cycling so that the contraction does not degenerate
         rows = [[c * (1.0 + 0.37 * (i // len(op["coeffs"]))) for c in r] for i, r in enumerate(rows)]
         coeffs = np.array(rows, dtype=float)
+        if lay == "column":  # columns of a wider table (what the NWChem parser hands out for SP shells)
+            wide = np.zeros((coeffs.shape[0], coeffs.shape[1] + 1))
+            wide[:, :-1] = coeffs
+            coeffs = wide[:, :-1]
+        elif lay == "strided":
+            coeffs = np.asfortranarray(coeffs)
         if op["coeffs1d"] and coeffs.shape[1] == 1:
-            coeffs = coeffs[:, 0].copy()
+            coeffs = coeffs[:, 0] if lay == "column" else coeffs[:, 0].copy()
     cm = op["coord"]
     coord = None
     if cm["mode"] == "row":
